@@ -197,4 +197,110 @@ theorem db_funcVar (ctx : Ctx) (c argc iftab : Nat) (hwf : (Tok.funcVar c argc i
       u16_le16 _ _ hi16, toNat_ofNat8 _ ha, Res.bind_ok, List.drop_succ_cons, drop_16, List.drop_zero]
     first | rfl | simp
 
+theorem decode_encode_xlsb (ctx : Ctx) (t : Tok) (hwf : t.wf false) (hs : t.sheetOk ctx.sheets.length)
+    (rest : Bytes) :
+    decodeTokXlsb ctx (encXlsb t ++ rest) = .ok (actOf (envOfXlsb ctx) false t, rest) := by
+  cases t with
+  | ref c a => exact db_ref ctx c a hwf rest
+  | area c a a2 => exact db_area ctx c a a2 hwf rest
+  | ref3d c i a => exact db_ref3d ctx c i a hwf hs rest
+  | area3d c i a a2 => exact db_area3d ctx c i a a2 hwf hs rest
+  | refErr c => exact db_refErr ctx c hwf rest
+  | areaErr c => exact db_areaErr ctx c hwf rest
+  | refErr3d c i => exact db_refErr3d ctx c i hwf hs rest
+  | areaErr3d c i => exact db_areaErr3d ctx c i hwf hs rest
+  | name c i => exact db_name ctx c i hwf rest
+  | int n => exact db_int ctx n hwf rest
+  | num bits => exact db_num ctx bits hwf rest
+  | str w s => exact db_str ctx w s hwf rest
+  | bool v => exact db_bool ctx v hwf rest
+  | err code => exact db_err ctx code hwf rest
+  | missArg => exact db_missArg ctx rest
+  | binop op => exact db_binop ctx op hwf rest
+  | uplus => exact db_simple ctx _ (by simp) rest
+  | uminus => exact db_simple ctx _ (by simp) rest
+  | percent => exact db_simple ctx _ (by simp) rest
+  | paren => exact db_simple ctx _ (by simp) rest
+  | attrSum => exact db_simple ctx _ (by simp) rest
+  | attrSkip e w => exact db_attrSkip ctx e w hwf rest
+  | func c iftab => exact db_func ctx c iftab hwf rest
+  | funcVar c argc iftab => exact db_funcVar ctx c argc iftab hwf rest
+
+theorem encXlsb_cons (t : Tok) : ∃ p body, encXlsb t = p :: body := by
+  cases t <;> simp [encXlsb]
+
+theorem runXlsb_step (ctx : Ctx) (fuel : Nat) (p : UInt8) (r : Bytes) (st : St) (a : Act) (r' : Bytes)
+    (h : decodeTokXlsb ctx (p :: r) = .ok (a, r')) :
+    runXlsb ctx (fuel + 1) (p :: r) st =
+      (match applyAct a st with
+        | .ok st' => runXlsb ctx fuel r' st'
+        | .err e => .err e
+        | .panic e => .panic e
+        | .outOfFuel => .outOfFuel) := by
+  simp only [decodeTokXlsb] at h
+  by_cases hm : isMemFunc p.toNat = true
+  · simp [hm] at h
+  · have hm' : isMemFunc p.toNat = false := by simpa using hm
+    simp only [hm', Bool.false_eq_true, if_false] at h
+    simp only [runXlsb, hm', Bool.false_eq_true, if_false, h]
+    cases applyAct a st <;> rfl
+
+theorem runXlsb_encode (ctx : Ctx) : ∀ (toks : List Tok), (∀ t ∈ toks, t.wf false ∧ t.sheetOk ctx.sheets.length) →
+    ∀ (fuel : Nat) (rest : Bytes) (st : St),
+    runXlsb ctx (toks.length + fuel) (encodeXlsb toks ++ rest) st =
+      (match runActs (toks.map (actOf (envOfXlsb ctx) false)) st with
+        | .ok st' => runXlsb ctx fuel rest st'
+        | .err e => .err e
+        | .panic e => .panic e
+        | .outOfFuel => .outOfFuel)
+  | [], _, fuel, rest, st => by simp [encodeXlsb, runActs]
+  | t :: ts, hwf, fuel, rest, st => by
+    obtain ⟨p, body, hp⟩ := encXlsb_cons t
+    have hd := decode_encode_xlsb ctx t (hwf t (by simp)).1 (hwf t (by simp)).2 (encodeXlsb ts ++ rest)
+    rw [hp] at hd
+    simp only [List.cons_append] at hd
+    have hlen : (t :: ts).length + fuel = (ts.length + fuel) + 1 := by simp; omega
+    have henc : encodeXlsb (t :: ts) ++ rest = p :: (body ++ (encodeXlsb ts ++ rest)) := by
+      simp [encodeXlsb, hp]
+    rw [hlen, henc, runXlsb_step ctx _ p _ st _ _ hd]
+    simp only [List.map_cons, runActs]
+    cases applyAct (actOf (envOfXlsb ctx) false t) st with
+    | ok st' => simp only; exact runXlsb_encode ctx ts (fun t' ht' => hwf t' (by simp [ht'])) fuel rest st'
+    | err e => rfl
+    | panic e => rfl
+    | outOfFuel => rfl
+
+theorem encodeXlsb_length_ge (toks : List Tok) : toks.length ≤ (encodeXlsb toks).length := by
+  induction toks with
+  | nil => simp [encodeXlsb]
+  | cons t ts ih =>
+    obtain ⟨p, body, hp⟩ := encXlsb_cons t
+    simp only [encodeXlsb, List.flatMap_cons, List.length_append, hp, List.length_cons] at *
+    omega
+
+theorem runXlsb_nil (ctx : Ctx) (fuel : Nat) (st : St) : runXlsb ctx fuel [] st = .ok st := by
+  cases fuel <;> rfl
+
+theorem toRpn_length_pos (e : Expr) : 0 < (toRpn e).length := by
+  cases e <;> simp [toRpn] <;> omega
+
+theorem parseFormulaXlsb_encode (ctx : Ctx) (e : Expr) (harity : e.arityOk)
+    (hwf : ∀ t ∈ toRpn e, t.wf false ∧ t.sheetOk ctx.sheets.length) :
+    parseFormulaXlsb ctx (encodeXlsb (toRpn e)) = .ok (renderA1 (envOfXlsb ctx) e) := by
+  unfold parseFormulaXlsb
+  generalize hb : encodeXlsb (toRpn e) = body at *
+  have hge : (toRpn e).length ≤ body.length := by rw [← hb]; exact encodeXlsb_length_ge _
+  have hpos := toRpn_length_pos e
+  have hne : body.isEmpty = false := by
+    cases body with
+    | nil => simp only [List.length_nil] at hge; omega
+    | cons _ _ => rfl
+  simp only [hne, Bool.false_eq_true, if_false]
+  have hrun := runXlsb_encode ctx (toRpn e) hwf (body.length - (toRpn e).length) [] ⟨[], []⟩
+  rw [hb, List.append_nil, show (toRpn e).length + (body.length - (toRpn e).length) = body.length by omega] at hrun
+  have hm := machine_correct (envOfXlsb ctx) false e harity [] [] []
+  simp only [List.append_nil, runActs, List.nil_append, List.length_nil] at hm
+  rw [hrun, hm]
+  simp [runXlsb_nil, finishXlsb]
+
 end Formula
